@@ -201,14 +201,16 @@ CLAIMED = {
         "BEFORE any user __init__; per user object: __init__ is called exactly once with exactly the collected "
         "attributes that belong to the rule (plus parent), and its per-object storage entry is removed first; object "
         "processors start only after every model of the load has ended construction (main-model phase). "
-        "THREE KNOWN FINDINGS (genuine defects, recorded not repaired, found by the bounded battery of real loads): "
-        "after a failing load the classes keep per-object storage (unknown reference; __init__ raising on the second of "
-        "three objects) and after a failing multi-file load the classes stay instrumented.",
-        "Known findings are listed in known_findings.json (status open) and described in DESIGN.md 11.8; the repair "
-        "needs restore to become idempotent per parser and the failure handlers to abort imported parsers - not a small "
-        "patch. The data invariant of _user_class_inst (every element has a storage entry) is a precondition of the "
-        "per-object unit (assumed). User __init__ is External.",
-        "DESIGN.md 5/C14, 11.8", "bounded battery of successful and failing loads with user classes"),
+        "Failure path (_abandon_model_construction, added by the repair bbf2621): per user object the storage entry is "
+        "dropped; the user classes are restored exactly for a model that is still in construction and whose parser is "
+        "not the one of the failing call; the failure handler of the main-model phase runs it for every model of the "
+        "load before the models are removed from the repositories. The three defects the bounded battery had found "
+        "(per-object storage kept after an unknown reference and after an __init__ raising on the second of three "
+        "objects; classes left instrumented after a failing multi-file load) are repaired (known_findings.json: fixed).",
+        "The data invariant of _user_class_inst (every element has a storage entry) is a precondition of the "
+        "per-object unit (assumed). User __init__ is External. That the abandon step itself raises nothing is assumed "
+        "in the main-model-phase unit.",
+        "DESIGN.md 5/C14, 11.8, 11.13", "bounded battery of successful and failing loads with user classes"),
     "C15": (
         "Proved: the roots through which textX could keep a failed load alive, each with its clean-up contract - "
         "(1) model repositories: the whole chain of C18 (every failing exit of parse_tree_to_objgraph / the main-model "
@@ -216,13 +218,13 @@ CLAIMED = {
         "get_model_from_str restores the instrumentation on every failing path on which it was switched on and raises "
         "the original error; _restore_user_attr_methods puts back exactly the saved attribute methods at the last load; "
         "the per-object storage entry of an object is removed before its __init__ runs, also when that __init__ fails. "
-        "THREE KNOWN FINDINGS (genuine defects, recorded not repaired): per-object storage survives a load that fails "
-        "before / inside _end_model_construction (two scenarios) and a failing multi-file load leaves the user classes "
-        "instrumented.",
+        "(3) the failure handler of the main-model phase abandons every model of the load (storage entries of its user "
+        "objects dropped, user classes restored for models still in construction) before the removal - the repair "
+        "bbf2621 of the three defects the battery had found (known_findings.json: fixed).",
         "GC reachability itself is not modelled: the obligations are about the long-lived roots textX has (class "
         "attributes of user classes, repositories); parser clones and resolvers are per load (C16). 'Same result as a "
         "fresh metamodel afterwards' is checked only by the bounded battery.",
-        "DESIGN.md 5/C15, 11.8", "bounded battery of failing loads with user classes"),
+        "DESIGN.md 5/C15, 11.8, 11.13", "bounded battery of failing loads with user classes"),
     "C05": (
         "Proved: get_model returns the root (loop invariant root_of(p) == root_of(obj), variant depth) and the root has "
         "no parent; get_parent_of_type returns the nearest ancestor whose class name is the given type. The traversal "
